@@ -62,7 +62,8 @@ impl SignedRegister {
     /// Verfies a SignedRegister
     pub fn verify(&self) -> Result<()> {
         let reg_size = self.ops.len();
-        if reg_size >= MAX_REG_NUM_ENTRIES as usize {
+        // `add_op` admits entries up to and including the MAX_REG_NUM_ENTRIES-th one
+        if reg_size > MAX_REG_NUM_ENTRIES as usize {
             return Err(Error::TooManyEntries(reg_size));
         }
 
